@@ -38,6 +38,15 @@ type c13Case struct {
 
 func svcName(i int) string { return fmt.Sprintf("s%d", i) }
 
+// rootName: a root index beyond the services names something that is not an enabled service: N is a name the
+// project does not know, N+1 the service `off` that a profile left disabled. Neither is ever visited.
+func (cs c13Case) rootName(r int) string {
+	if r == cs.N+1 {
+		return "off"
+	}
+	return svcName(r)
+}
+
 func (cs c13Case) project() *types.Project {
 	p := &types.Project{Name: "proj", Services: types.Services{}}
 	for i := 0; i < cs.N; i++ {
@@ -50,6 +59,11 @@ func (cs c13Case) project() *types.Project {
 		}
 		s.DependsOn[svcName(e[1])] = types.ServiceDependency{Condition: types.ServiceConditionStarted, Required: true}
 		p.Services[svcName(e[0])] = s
+	}
+	for _, r := range cs.Roots {
+		if r == cs.N+1 {
+			p.DisabledServices = types.Services{"off": types.ServiceConfig{Name: "off", Image: "img", Profiles: []string{"never"}}}
+		}
 	}
 	return p
 }
@@ -89,7 +103,9 @@ func (cs c13Case) expectedVisits() map[int]bool {
 		return out
 	}
 	for _, r := range cs.Roots {
-		out[r] = true
+		if r < cs.N {
+			out[r] = true
+		}
 	}
 	for changed := true; changed; {
 		changed = false
@@ -233,7 +249,7 @@ func c13Check(c *Ctx, cs c13Case) *Failure {
 	if len(cs.Roots) > 0 {
 		var rs []string
 		for _, r := range cs.Roots {
-			rs = append(rs, svcName(r))
+			rs = append(rs, cs.rootName(r))
 		}
 		opts = append(opts, graph.WithRootNodesAndDown(rs))
 	}
@@ -406,6 +422,13 @@ loop:
 	}
 	if len(cs.Roots) > 0 {
 		c.Label("roots")
+		some := false
+		for _, r := range cs.Roots {
+			some = some || r < cs.N
+		}
+		if !some {
+			c.Label("roots:none-is-an-enabled-service")
+		}
 	}
 	if len(cs.Fail) > 0 {
 		c.Label("error-injected")
@@ -489,7 +512,11 @@ func genC13(maxN int) func(t *rapid.T) c13Case {
 			// one to four roots, in any order, duplicates and roots that depend on one another included
 			k := rapid.IntRange(1, 4).Draw(t, "nroots")
 			for i := 0; i < k; i++ {
-				cs.Roots = append(cs.Roots, rapid.IntRange(0, cs.N-1).Draw(t, "root"))
+				r := rapid.IntRange(0, cs.N-1).Draw(t, "root")
+				if rapid.IntRange(0, 3).Draw(t, "root-not-a-service") == 0 {
+					r = cs.N + rapid.IntRange(0, 1).Draw(t, "which")
+				}
+				cs.Roots = append(cs.Roots, r)
 			}
 		}
 		for i := 0; i < cs.N; i++ {
